@@ -296,7 +296,9 @@ def run_penalty_comb(rng, obs):
     specs = []
     for _ in range(rng.randint(1, 3)):
         i, b = rng.randrange(dim), rng.choice([0.0, 1.0, -1.0])
-        t = rng.choice(['quadratic_inequality', 'linear_inequality', 'quadratic_equality', 'linear_equality'])
+        # every penalty type that vanishes on its feasible set (the lagrange types do at iteration 0; the barrier type never does)
+        t = rng.choice(['quadratic_inequality', 'linear_inequality', 'quadratic_equality', 'linear_equality', 'uniform_inequality', 'uniform_equality',
+                        'lagrange_inequality', 'lagrange_equality'])
         cond = (lambda x, i=i, b=b: x[i] - b)
         specs.append([t, i, b])
         mk.append(getattr(mp, t)(cond, k=rng.choice([1, 10]))(lambda x: 0.0))
